@@ -15,7 +15,7 @@ import (
 // transient store's own iterator runs on goroutines, which the engine does not execute); reopening
 // reports the same commit id.
 func VerifC06() {
-	dbX, dbY := modelkv.NewDB(), modelkv.NewDB()
+	dbX, dbY := modelkv.NewUnorderedDB(), modelkv.NewUnorderedDB()
 	x, y := mwMustOpen(dbX), mwMustOpen(dbY)
 	ref := mwNewRef()
 	v.Assert(x.LastCommitID().Version == 0, "fresh-store-at-version-0")
